@@ -44,7 +44,7 @@ import (
 	ftftypes "github.com/circlefin/noble-fiattokenfactory/x/fiattokenfactory/types"
 )
 
-const MintDenom = "uusdc"
+const MintDenom = "uusdc" // default minting denom
 
 // Config describes one chain instance.
 type Config struct {
@@ -57,6 +57,7 @@ type Config struct {
 	FTFPaused bool
 	// Blacklisted raw 20-byte addresses at the FTF.
 	Blacklisted [][]byte
+	MintDenom   string // fiat-token-factory minting denom (default "uusdc")
 	DB          dbm.DB // nil: fresh MemDB
 	Yield       func() // called at every cctp store access (C18 interleaving widening); may be nil
 	SkipInit    bool   // re-open an existing DB (restart)
@@ -109,6 +110,9 @@ var storeNames = []string{authtypes.StoreKey, banktypes.StoreKey, ftftypes.Store
 func New(cfg Config) (c *Chain, err error) {
 	if cfg.Prefix == "" {
 		cfg.Prefix = prefixSet
+	}
+	if cfg.MintDenom == "" {
+		cfg.MintDenom = MintDenom
 	}
 	if cfg.Prefix != prefixSet {
 		return nil, fmt.Errorf("prefix %q differs from process prefix %q", cfg.Prefix, prefixSet)
@@ -231,8 +235,8 @@ func (c *Chain) initGenesis(ctx sdk.Context) {
 	}
 	bg := banktypes.DefaultGenesisState()
 	bg.DenomMetadata = []banktypes.Metadata{{
-		Base: MintDenom, Display: "usdc", Name: "usdc", Symbol: "USDC",
-		DenomUnits: []*banktypes.DenomUnit{{Denom: MintDenom, Exponent: 0}, {Denom: "usdc", Exponent: 6}},
+		Base: cfg.MintDenom, Display: "usdc", Name: "usdc", Symbol: "USDC",
+		DenomUnits: []*banktypes.DenomUnit{{Denom: cfg.MintDenom, Exponent: 0}, {Denom: "usdc", Exponent: 6}},
 	}}
 	total := new(big.Int)
 	if !cfg.Double {
@@ -246,20 +250,20 @@ func (c *Chain) initGenesis(ctx sdk.Context) {
 			if v.Sign() <= 0 {
 				continue
 			}
-			bg.Balances = append(bg.Balances, banktypes.Balance{Address: a, Coins: sdk.NewCoins(sdk.NewCoin(MintDenom, sdkmath.NewIntFromBigInt(v)))})
+			bg.Balances = append(bg.Balances, banktypes.Balance{Address: a, Coins: sdk.NewCoins(sdk.NewCoin(cfg.MintDenom, sdkmath.NewIntFromBigInt(v)))})
 			total.Add(total, v)
 		}
 		if total.Sign() > 0 {
-			bg.Supply = sdk.NewCoins(sdk.NewCoin(MintDenom, sdkmath.NewIntFromBigInt(total)))
+			bg.Supply = sdk.NewCoins(sdk.NewCoin(cfg.MintDenom, sdkmath.NewIntFromBigInt(total)))
 		}
 	}
 	c.Bank.InitGenesis(ctx, bg)
 
 	// fiat-token-factory genesis by hand (its root package pulls ibc-go through ante.go)
-	if _, found := c.Bank.GetDenomMetaData(ctx, MintDenom); !found {
+	if _, found := c.Bank.GetDenomMetaData(ctx, cfg.MintDenom); !found {
 		panic("denom metadata missing")
 	}
-	c.FTF.SetMintingDenom(ctx, ftftypes.MintingDenom{Denom: MintDenom})
+	c.FTF.SetMintingDenom(ctx, ftftypes.MintingDenom{Denom: cfg.MintDenom})
 	c.FTF.SetPaused(ctx, ftftypes.Paused{Paused: cfg.FTFPaused})
 	allow := cfg.Allowance
 	if allow == nil {
@@ -270,13 +274,14 @@ func (c *Chain) initGenesis(ctx sdk.Context) {
 	}
 	c.FTF.SetMinters(ctx, ftftypes.Minters{
 		Address:   cctptypes.ModuleAddress.String(),
-		Allowance: sdk.NewCoin(MintDenom, sdkmath.NewIntFromBigInt(allow)),
+		Allowance: sdk.NewCoin(cfg.MintDenom, sdkmath.NewIntFromBigInt(allow)),
 	})
 	for _, b := range cfg.Blacklisted {
 		c.FTF.SetBlacklisted(ctx, ftftypes.Blacklisted{AddressBz: b})
 	}
 
 	if cfg.Double {
+		c.Ledger.MintingDenom = cfg.MintDenom
 		c.Ledger.Init(ctx, cfg.Funded, cfg.Allowance, cfg.FTFPaused)
 	}
 
